@@ -138,6 +138,11 @@ fn gen_flow(rng: &mut Rng, window: u64, max_len: usize) -> Flow {
 }
 
 pub fn gen_plan(seed: u64, faulty: bool, tier: Tier) -> Plan {
+    gen_plan_mode(seed, faulty, tier, false)
+}
+
+/// `force_residue`: always the "credit residue" mode (see below).
+pub fn gen_plan_mode(seed: u64, faulty: bool, tier: Tier, force_residue: bool) -> Plan {
     let mut rng = Rng::new(seed, "c01");
     let rt = RtKnobs::from_rng(&mut rng);
     let mut ck = EpKnobs::random(&mut rng);
@@ -208,7 +213,7 @@ pub fn gen_plan(seed: u64, faulty: bool, tier: Tier) -> Plan {
     // "credit residue" mode: a bulk stream that is not read for a while eats the acceptor's
     // *connection* window down to a residue of 0..120 bytes, then small streams are opened: their
     // preamble and first bytes have to squeeze through whatever credit is left
-    if rng.chance_pm(150) {
+    if force_residue || rng.chance_pm(150) {
         let opener_is_client = rng.coin();
         let w = *rng.pick(&[4096u64, 8192]);
         {
